@@ -5,7 +5,7 @@ from typing import Any, Dict, List
 
 from .. import compare as cmp
 from ..core import Outcome, Prop
-from .component import COMPONENT, compare_c03 as _component
+from .component import COMPONENT, MULTIINDEX, compare_c03 as _component, compare_mi_c03 as _multiindex
 from . import c08 as _c08
 
 # the parse pipeline of the polars back end (and of pandas, same vectors): the backend-neutral container slice
@@ -33,6 +33,8 @@ def against(vec: Dict[str, Any], exp: Dict[str, Any], obs: Dict[str, Any]) -> Li
 def compare(vec: Dict[str, Any], obs: Dict[str, Any]) -> Outcome:
     if vec.get("kind") == "component":
         return _component(vec, obs)
+    if vec.get("kind") == "multiindex":
+        return _multiindex(vec, obs)
     if vec.get("kind") == "neutral":
         return _c08.compare(vec, obs)
     oc = Outcome()
@@ -70,7 +72,7 @@ def compare(vec: Dict[str, Any], obs: Dict[str, Any]) -> Outcome:
 PROP = Prop(
     id="C03",
     title="Whatever validate returns conforms to the schema (parse postcondition)",
-    slices=[slices.SERIES_PARSE, slices.FRAME_PARSE, SERIES_DROP, COMPONENT, NEUTRAL_PARSE],
+    slices=[slices.SERIES_PARSE, slices.FRAME_PARSE, SERIES_DROP, COMPONENT, MULTIINDEX, NEUTRAL_PARSE],
     compare=compare,
     rule=("TLC explores the parse pipeline (default filling, coercion, index coercion; frames: add_missing_columns, "
           "strict='filter') and proves ParsePostcondition and ParseFixpoint on the specification; every run is replayed, "
